@@ -11,4 +11,5 @@ var Signals = []os.Signal{
 	syscall.SIGINT,
 	syscall.SIGQUIT,
 	syscall.SIGTERM,
+	syscall.SIGPIPE,
 }
